@@ -1,9 +1,33 @@
 (* Tie: the cascade shape / tables regenerated from vgi_rpc/utils.py and _state_token.py (gen/G_Dataclass.v, rewritten on
-   every run) are the ones the C03 theorems are about. *)
+   every run) are the ones the C03 theorems are about; the theorems restated over the regenerated configuration. *)
 From Coq Require Import List NArith ZArith Bool.
-From VGI Require Import M_Dataclass G_Dataclass.
+From VGI Require Import M_Dataclass G_Dataclass P_C03.
 Import ListNotations.
 Open Scope N_scope.
 
 Lemma cfg_tie : gen_cfg = model_cfg.
 Proof. reflexivity. Qed.
+
+Theorem C03_source_arrow_roundtrip_partial : forall ce c fs x b,
+  wfb (TData c fs) = true -> cenv_okb ce (TData c fs) = true -> instb (TData c fs) x = true ->
+  serialize_to_bytes gen_cfg ce x = Ok b -> ipc_clean b = true ->
+  deserialize_from_bytes gen_cfg (TData c fs) b = Ok x.
+Proof. rewrite cfg_tie. exact C03_arrow_roundtrip_partial. Qed.
+
+Theorem C03_source_state_bytes_roundtrip_partial : forall ce (pack : list (N * pv) -> option pv) (unpack : pv -> option pv),
+  (forall r p, pack r = Some p -> unpack p = Some (VRow r)) ->
+  forall have_msgpack c fs x si b,
+  wfb (TData c fs) = true -> cenv_okb ce (TData c fs) = true -> instb (TData c fs) x = true ->
+  (si = SingleState (TData c fs) \/
+   exists ts tag, si = UnionState ts /\ index_of c (map cls_id ts) 0 = Some tag /\ nth_error ts (N.to_nat tag) = Some (TData c fs)) ->
+  ser_state gen_cfg ce have_msgpack pack x si = Ok b -> ipc_clean b = true ->
+  de_state gen_cfg have_msgpack unpack si b = Ok x.
+Proof. rewrite cfg_tie. exact C03_state_bytes_roundtrip_partial. Qed.
+
+Theorem C03_source_compact_agrees : forall ce (pack : list (N * pv) -> option pv) (unpack : pv -> option pv),
+  (forall r p, pack r = Some p -> unpack p = Some (VRow r)) ->
+  forall c fs x b,
+  wfb (TData c fs) = true -> cenv_okb ce (TData c fs) = true -> instb (TData c fs) x = true ->
+  ser_compact gen_cfg ce true pack x = Ok (Some b) ->
+  de_compact gen_cfg true unpack (TData c fs) b = Ok x /\ roundtrip gen_cfg ce (TData c fs) x = Ok x.
+Proof. rewrite cfg_tie. exact C03_compact_agrees. Qed.
